@@ -348,12 +348,16 @@ func applyC13(t *rapid.T, base World, kind string) (World, bool) {
 		if idx < 0 {
 			return w, false
 		}
-		for try := 0; try < 8; try++ {
+		edited := false
+		for try := 0; try < 8 && !edited; try++ {
 			m, what := mutateExt(t, l.Extensions[idx], fmt.Sprintf("adm%d", try))
 			if what == "content" {
 				l.Extensions[idx] = m
-				break
+				edited = true
 			}
+		}
+		if !edited {
+			return w, false
 		}
 	case "edit:ext-kind-swap":
 		// same raw bytes under another extension kind
